@@ -81,8 +81,19 @@ fn parse_single_input(s: String) -> Result<f32, RuntimeError> {
     if s.is_empty() {
         Ok(0.0)
     } else {
-        s.parse::<f32>()
-            .map_err(|e| RuntimeError::Other(format!("Could not parse {} as float: {}", s, e)))
+        // a number that does not fit is an overflow; the words the Rust parser accepts
+        // besides numbers ("inf", "nan") do not denote a number
+        match s.parse::<f32>() {
+            Ok(f) if f.is_finite() => Ok(f),
+            Ok(f) if f.is_infinite() && s.bytes().any(|b| b.is_ascii_digit()) => {
+                Err(RuntimeError::Overflow)
+            }
+            Ok(_) => Err(RuntimeError::Other(format!("Could not parse {} as float", s))),
+            Err(e) => Err(RuntimeError::Other(format!(
+                "Could not parse {} as float: {}",
+                s, e
+            ))),
+        }
     }
 }
 
@@ -90,8 +101,17 @@ fn parse_double_input(s: String) -> Result<f64, RuntimeError> {
     if s.is_empty() {
         Ok(0.0)
     } else {
-        s.parse::<f64>()
-            .map_err(|e| RuntimeError::Other(format!("Could not parse {} as double: {}", s, e)))
+        match s.parse::<f64>() {
+            Ok(d) if d.is_finite() => Ok(d),
+            Ok(d) if d.is_infinite() && s.bytes().any(|b| b.is_ascii_digit()) => {
+                Err(RuntimeError::Overflow)
+            }
+            Ok(_) => Err(RuntimeError::Other(format!("Could not parse {} as double", s))),
+            Err(e) => Err(RuntimeError::Other(format!(
+                "Could not parse {} as double: {}",
+                s, e
+            ))),
+        }
     }
 }
 
